@@ -17,7 +17,9 @@ vars == <<l, bad>>
 \* r.wrapped : answer of the Unordered(..) == wrapper ; r.eq : ordinary equality
 Holds(r) ==
   LET m == MultisetEq(r.a, r.b) IN
+  /\ ~r.panic
   /\ r.ab = m /\ r.ba = m /\ r.wrapped = m
+  /\ r.routes_agree        \* Unordered(..), as_unordered() and the container types' own impls all give that answer
   /\ r.eq = (r.a = r.b)
   /\ r.eq => r.ab
 
